@@ -29,7 +29,7 @@ Proof.
 Qed.
 
 Lemma roundtrip_partial : forall cfg d,
-  wfd d = true -> ws_prefix (pc_prefix cfg) = true ->
+  pwfd d = true -> ws_prefix (pc_prefix cfg) = true ->
   exists toks,
     ast_print cfg d = ApOk (pt_render toks) /\
     pt_consecutive_safe toks = true /\
